@@ -252,7 +252,7 @@ func genBundle(g *Gen, o BundleOpts) *Bundle {
 	if o.Scenario == "relative-path-two-bases" {
 		nAux = 0 // the scenario brings its own three auxiliary documents
 	}
-	if nAux == 0 && o.MaxAux > 0 && (o.Scenario == "empty-mangled-names" || o.Scenario == "generated-name-equals-imported") {
+	if nAux == 0 && o.MaxAux > 0 && (o.Scenario == "empty-mangled-names" || o.Scenario == "generated-name-equals-imported" || o.Scenario == "collide-sibling-refs") {
 		nAux = 1
 	}
 	perm := g.r.Perm(len(auxPathPool))
@@ -1180,6 +1180,33 @@ func (b *bgen) injectScenario(name string, rootDefs, paths M, aux map[string]M, 
 			paths["/scn/alias-owner"] = M{"get": resp(M{"$ref": "#/definitions/aliasOwner"})}
 		}
 		g.hit("scenario:alias-to-pointer")
+	case "collide-sibling-refs":
+		// two imported, $ref-free definitions collide with root definitions; the $ref to the first one has a schema-bearing
+		// sibling that holds the $ref to the second one: re-inlining the first overwrites the holder of the second
+		if len(b.auxPaths) == 0 {
+			return
+		}
+		ap := b.auxPaths[0]
+		rootDefs["sibX"] = M{"type": "string"}
+		rootDefs["sibY"] = M{"type": "integer"}
+		aux[ap]["definitions"].(M)["sibX"] = M{"type": "object", "properties": M{"vx": M{"type": "string"}}}
+		aux[ap]["definitions"].(M)["sibY"] = M{"type": "object", "properties": M{"wy": M{"type": "integer"}}}
+		refTo := func(n string) M { return M{"$ref": relRef("", ap) + "#/definitions/" + n} }
+		holder := refTo("sibX")
+		switch g.n(3) {
+		case 0:
+			holder["properties"] = M{"q": refTo("sibY")}
+		case 1:
+			holder["items"] = refTo("sibY")
+		default:
+			holder["allOf"] = []any{refTo("sibY")}
+		}
+		rootDefs["sibCollide"] = M{"type": "object", "properties": M{"p": holder}}
+		paths["/scn/sib-collide"] = M{"get": resp(M{"$ref": "#/definitions/sibCollide"})}
+		if g.p(0.5) {
+			paths["/scn/sib-roots"] = M{"get": resp(M{"$ref": "#/definitions/sibX"}), "put": resp(M{"$ref": "#/definitions/sibY"})}
+		}
+		g.hit("scenario:collide-sibling-refs")
 	case "unused-chain":
 		// definitions that become unused only after another one is removed, through names that need escaping
 		if g.p(0.5) {
